@@ -457,8 +457,11 @@ class Exec:
             rhs = self.eval(st.value)
             if isinstance(cur, SymArr):
                 new = self.registry.models.array_binop(self, op, cur, rhs)
+                self._check_inplace_cast(cur, new, op, st.lineno)
             else:
                 new = self.binop(op, cur, rhs)
+                if isinstance(base, SymArr):
+                    self._check_inplace_cast(base, new, op, st.lineno)
             self.setitem(base, idx, new, t.lineno)
         else:
             cur = self.eval(_as_load(t))
@@ -466,6 +469,7 @@ class Exec:
             if isinstance(cur, SymArr):
                 # numpy in-place: same object keeps identity
                 new = self.registry.models.array_binop(self, op, cur, rhs)
+                self._check_inplace_cast(cur, new, op, st.lineno)
                 self.arr_bulk(cur, lambda xs: new.get(xs))
                 return
             if isinstance(cur, list) and op == "+":
@@ -473,6 +477,18 @@ class Exec:
                 cur.extend(rhs)
                 return
             self.assign(t, self.binop(op, cur, rhs))
+
+    def _check_inplace_cast(self, target, new, op, line):
+        """NumPy in-place operators use casting='same_kind': the result of the operation must be castable to the
+        target's element type, otherwise a TypeError (UFuncTypeError) is raised (x /= y on an integer array, adding a
+        float or complex array into an integer one, complex into real)"""
+        order = ["bool", "int", "real", "cx"]
+        tdt = target.dtype
+        ndt = new.dtype if isinstance(new, SymArr) else ("cx" if isinstance(new, Cx) else V.sort_of(new))
+        if op == "/" and tdt in ("int", "bool"):
+            ndt = "real"
+        if ndt in order and tdt in order and order.index(ndt) > order.index(tdt):
+            raise RaiseSignal("TypeError", detail="in-place %s would cast %s to %s" % (op, ndt, tdt), line=line)
 
     def st_Delete(self, st):
         for t in st.targets:
